@@ -126,7 +126,7 @@ Proof.
   cbn in Hst, Hstep, Hq, Hrdy, Hdisp, Hr, Htid |- *. subst.
   assert (Hto : timed_out nw (nw, r_ack_ms r) = false)
     by (unfold timed_out; cbn; apply Z.leb_gt; lia).
-  unfold Dest.state_machine. remember 2%nat as k eqn:Hk. clear Hk. cbn [non_idle_fsm].
+  unfold Dest.state_machine, catch_abandoned, catch. remember 2%nat as k eqn:Hk. clear Hk. cbn [non_idle_fsm].
   destruct cfg as [lid lidw i1 i2 i3 ifin lf lck lrem].
   destruct r as [rid ridw rms rmp rcl rcrc rmode rck rack racl rchl rdisp rimm rnak rnakl].
   destruct pconf as [hd hm hc hl hs hdst hidw hseq hseqw].
@@ -136,7 +136,7 @@ Proof.
   all: cbn.
   all: unfold handle_transfer_completion, notice_of_completion, prepare_finished_pdu, handle_finished_pdu_sent,
     start_positive_ack_procedure, mode_is, tmode, step_is, get_step, rcfg_or_assert, reset_internal, add_packet,
-    conf, gp, setp, set_step, emit, now, when, bind, get, gets, modify, ret, raise.
+    catch_abandoned, catch, conf, gp, setp, set_step, emit, now, when, bind, get, gets, modify, ret, raise.
   all: cbn.
   all: try rewrite (wait_ack_noop _ _ _ (nw, rack)) by (first [exact Hto | reflexivity]).
   all: eexists; (split; [reflexivity|]); cbn; repeat split; reflexivity.
